@@ -640,6 +640,11 @@ impl Cx<'_> {
         if !lines.iter().any(|l| l.contains("[doc#")) {
             lines.insert(0, format!(" [doc#{}]", self.doc_counter));
         }
+        // `#[doc = "/.."]`: a text that starts with a slash (right behind the `*` of the comment)
+        if style != DocStyle::Line && t.pct(12) {
+            let k = if style == DocStyle::Block { 0 } else { t.choose(lines.len()) };
+            lines[k] = format!("/{}", lines[k].trim_start());
+        }
         Some(Doc { lines, style })
     }
 
